@@ -134,7 +134,12 @@ def new_loop(start: float = 0.0) -> asyncio.AbstractEventLoop:
     orig_run_once = loop._run_once          # type: ignore[attr-defined]
     state = {'t': None, 'n': 0}
 
+    from kv import vthreads
+    vthreads.reset()
+    vthreads.install(loop)
+
     def _run_once() -> None:
+        vthreads.gate(loop)                     # handler threads (sync handlers) must be quiescent before the clock may move
         now = loop._LoopTimeEventLoop__now      # type: ignore[attr-defined]
         if now == state['t']:
             state['n'] += 1
